@@ -303,7 +303,11 @@ func (b *BloomSearchEngine) Stop(ctx context.Context) error {
 		stopAfter()
 		return nil
 	case <-ctx.Done():
-		// Timeout occurred
+		// Timeout occurred. Cancel flush work before reporting the deadline:
+		// the AfterFunc above runs on another goroutine (and, for foreign
+		// context implementations, arbitrarily late), so without this a
+		// queued flush could still start store work after Stop has returned.
+		b.flushCancel()
 		return fmt.Errorf("shutdown timeout exceeded: %w", ctx.Err())
 	}
 }
